@@ -1,5 +1,6 @@
 import Tup.Model.Db
 import Tup.Spec.Layout
+import Std.Data.HashSet
 /-!
   Step-level specification of the allocator (C01 / C02), written from the property text and judged
   on *table dumps before and after one public call* — it knows nothing of how the call is
@@ -105,6 +106,11 @@ def Diff.isEmpty (d : Diff) : Bool := d.gone.isEmpty && d.changed.isEmpty && d.a
 def otherSpacesSame (db db' : Db) (s : Space) : Bool :=
   Space.all.all fun s' => s' == s || db.ids s' == db'.ids s'
 
+/-- rows of `live` whose key is not among `dropped` -/
+def survivorsOf (live dropped : List Row) : List Row :=
+  let set := Std.HashSet.ofList (dropped.map (·.id))
+  live.filter (fun r => !set.contains r.id)
+
 def clause (name : String) (ok : Bool) : List String := if ok then [] else [name]
 
 /-- every dump: keys sorted/unique, every row in its own space (C01 on the tables themselves) -/
@@ -155,7 +161,7 @@ def checkGet (maxIds : Nat) (db db' : Db) (s : Space) (u : Sub) (d : String) (no
     else
       -- dropped assignments: rows gone, and rows whose key now carries another description
       let dropped := df.gone ++ (df.changed.filter (fun p => p.1.desc != p.2.desc)).map (·.1)
-      let survivors := live.filter (fun r => !dropped.any (fun x => x.id == r.id))
+      let survivors := survivorsOf live dropped
       c01 ++ binds ++ frame ++
       clause "assignment-atime-changed" (df.changed.all (fun p => p.2 == new)) ++
       clause "unrequested-row-appeared" (df.added.all (fun r => r == new)) ++
@@ -172,7 +178,7 @@ def checkGet (maxIds : Nat) (db db' : Db) (s : Space) (u : Sub) (d : String) (no
           (dropped.isEmpty || probes.all (fun c => t.any (fun r => r.id == c))))
   | none =>
     let dropped := df.gone
-    let survivors := live.filter (fun r => !dropped.any (fun x => x.id == r.id))
+    let survivors := survivorsOf live dropped
     frame ++
     clause "error-in-enumerable-subspace" (!enumerable) ++
     clause "error-changed-rows" (df.changed.isEmpty && df.added.isEmpty) ++
@@ -213,7 +219,7 @@ def checkDel (db db' : Db) (id : Nat) (err : Bool) : List String :=
 def checkCleanup (db db' : Db) (s : Space) (u : Sub) (maxIds : Nat) : List String :=
   let live := liveRows db s u
   let df := diffTables (db.ids s) (db'.ids s)
-  let survivors := live.filter (fun r => !df.gone.any (fun x => x.id == r.id))
+  let survivors := survivorsOf live df.gone
   clause "other-space-changed" (otherSpacesSame db db' s) ++
   clause "upload-table-changed" (db.uploads == db'.uploads) ++
   clause "cleanup-changed-rows" (df.changed.isEmpty && df.added.isEmpty) ++
